@@ -1,18 +1,348 @@
 package main
 
-// Scheduler placeholder (full implementation follows with C15).
+// Cooperative scheduler for the goroutines of the program under analysis (C15).
+//
+// Every target goroutine runs on its own Go goroutine, but a baton guarantees that exactly one
+// executes at any time, so the executor stays deterministic. At scheduling points (spawn, sync
+// operations, explicit verifYield in harness callbacks, goroutine exit) the next goroutine to run
+// is a choice recorded in the decision trail: interleavings are explored like inputs. Switching
+// away from a goroutine that could continue is a preemption; their number per path is bounded.
+//
+// A vector-clock happens-before detector (spawn, WaitGroup Done->Wait, Mutex Unlock->Lock edges)
+// checks every load/store and map access of all goroutines for data races on every explored
+// schedule.
 
-import "golang.org/x/tools/go/ssa"
+import (
+	"fmt"
+	"go/token"
 
-type scheduler struct {
-	inCritical bool
+	"golang.org/x/tools/go/ssa"
+)
+
+type gor struct {
+	id      int
+	resume  chan struct{}
+	done    bool
+	waitFor func() bool // non-nil while blocked
+	what    string
+	vc      []int
 }
 
-func (s *scheduler) killAll()                                                            {}
-func (s *scheduler) finish(x *Exec)                                                      {}
-func (s *scheduler) access(x *Exec, addr *value, m *mapVal, write bool)                  {}
-func (s *scheduler) spawn(x *Exec, fr *frame, instr *ssa.Go, fn value, args []value)     {}
-func (s *scheduler) syncPoint(x *Exec, p *value, what string)                            {}
-func (s *scheduler) release(x *Exec, p *value)                                           {}
-func (s *scheduler) acquire(x *Exec, p *value)                                           {}
-func (s *scheduler) waitUntil(x *Exec, cond func() bool, what string)                    {}
+type accessRec struct {
+	wG, wC int // last write: goroutine, clock (wG < 0: none)
+	reads  map[int]int
+}
+
+type scheduler struct {
+	gs          []*gor
+	cur         int
+	preemptions int
+	maxPreempt  int
+	abort       interface{}
+	killed      bool
+	cells       map[*value]*accessRec
+	maps        map[*mapVal]*accessRec
+	syncVC      map[*value][]int
+	races       []string
+	active      bool // more than one goroutine has existed
+	x           *Exec
+}
+
+type killSignal struct{}
+
+func newScheduler(x *Exec, maxPreempt int) *scheduler {
+	s := &scheduler{x: x, maxPreempt: maxPreempt, cells: map[*value]*accessRec{}, maps: map[*mapVal]*accessRec{}, syncVC: map[*value][]int{}}
+	s.gs = []*gor{{id: 0, resume: make(chan struct{}, 1), vc: []int{1}}}
+	return s
+}
+
+func (s *scheduler) me() *gor { return s.gs[s.cur] }
+
+func vcGet(vc []int, i int) int {
+	if i < len(vc) {
+		return vc[i]
+	}
+	return 0
+}
+
+func vcJoin(a, b []int) []int {
+	n := len(a)
+	if len(b) > n {
+		n = len(b)
+	}
+	out := make([]int, n)
+	for i := range out {
+		x, y := vcGet(a, i), vcGet(b, i)
+		if y > x {
+			x = y
+		}
+		out[i] = x
+	}
+	return out
+}
+
+func (s *scheduler) tick(g *gor) {
+	for len(g.vc) <= g.id {
+		g.vc = append(g.vc, 0)
+	}
+	g.vc[g.id]++
+}
+
+// runnable goroutines (not done, not blocked or whose wait condition holds)
+func (s *scheduler) runnable() []int {
+	var out []int
+	for _, g := range s.gs {
+		if g.done {
+			continue
+		}
+		if g.waitFor != nil && !g.waitFor() {
+			continue
+		}
+		out = append(out, g.id)
+	}
+	return out
+}
+
+// switchTo hands the baton to goroutine id and parks the caller until it is resumed.
+func (s *scheduler) switchTo(id int) {
+	me := s.me()
+	if id == me.id {
+		return
+	}
+	s.cur = id
+	s.gs[id].resume <- struct{}{}
+	<-me.resume
+	if s.killed {
+		panic(killSignal{})
+	}
+	s.cur = me.id
+	if s.abort != nil && me.id == 0 {
+		a := s.abort
+		s.abort = nil
+		panic(a)
+	}
+}
+
+// yield is a scheduling point for a goroutine that could continue.
+func (s *scheduler) yield(what string) {
+	if !s.active {
+		return
+	}
+	rs := s.runnable()
+	if len(rs) <= 1 {
+		return
+	}
+	me := s.me()
+	opts := []int{me.id}
+	if s.preemptions < s.maxPreempt {
+		for _, r := range rs {
+			if r != me.id {
+				opts = append(opts, r)
+			}
+		}
+	}
+	if len(opts) == 1 {
+		return
+	}
+	k := s.x.choose(len(opts), "schedule:"+what)
+	if k != 0 {
+		s.preemptions++
+		s.switchTo(opts[k])
+	}
+}
+
+// block parks the current goroutine until cond holds (free switch, no preemption counted).
+func (s *scheduler) waitUntil(x *Exec, cond func() bool, what string) {
+	me := s.me()
+	for !cond() {
+		me.waitFor = cond
+		me.what = what
+		rs := s.runnable()
+		if len(rs) == 0 {
+			me.waitFor = nil
+			panic(targetPanic{v: iface{t: x.rtErrType, v: strVal{s: "all goroutines are asleep - deadlock! (" + what + ")"}}, msg: "fatal error: all goroutines are asleep - deadlock! (" + what + ")"})
+		}
+		k := 0
+		if len(rs) > 1 {
+			k = x.choose(len(rs), "schedule:blocked:"+what)
+		}
+		s.switchTo(rs[k])
+		me.waitFor = nil
+	}
+}
+
+func (s *scheduler) syncPoint(x *Exec, p *value, what string) { s.yield(what) }
+
+func (s *scheduler) release(x *Exec, p *value) {
+	g := s.me()
+	s.syncVC[p] = vcJoin(s.syncVC[p], g.vc)
+	s.tick(g)
+}
+
+func (s *scheduler) acquire(x *Exec, p *value) {
+	g := s.me()
+	g.vc = vcJoin(g.vc, s.syncVC[p])
+}
+
+func (s *scheduler) spawn(x *Exec, fr *frame, instr *ssa.Go, fn value, args []value) {
+	parent := s.me()
+	child := &gor{id: len(s.gs), resume: make(chan struct{}, 1)}
+	child.vc = append([]int{}, parent.vc...)
+	for len(child.vc) <= child.id {
+		child.vc = append(child.vc, 0)
+	}
+	child.vc[child.id] = 1
+	s.tick(parent)
+	s.gs = append(s.gs, child)
+	s.active = true
+	go func() {
+		<-child.resume
+		defer func() {
+			r := recover()
+			child.done = true
+			if r != nil {
+				if _, ok := r.(killSignal); ok {
+					return
+				}
+				// abort of the whole path (or an uncaught target panic in a goroutine): report through goroutine 0
+				if s.abort == nil {
+					s.abort = r
+				}
+			}
+			if s.killed {
+				return
+			}
+			// hand the baton on: to goroutine 0 on abort, else to a runnable goroutine
+			next := -1
+			if s.abort != nil {
+				next = 0
+			} else {
+				rs := s.runnable()
+				if len(rs) == 0 {
+					// everyone else blocked: wake goroutine 0 with a deadlock abort
+					s.abort = targetPanic{msg: "fatal error: all goroutines are asleep - deadlock!"}
+					next = 0
+				} else {
+					k := 0
+					if len(rs) > 1 {
+						k = s.chooseSafe(len(rs), "schedule:exit")
+					}
+					if k < 0 {
+						next = 0
+					} else {
+						next = rs[k]
+					}
+				}
+			}
+			s.cur = next
+			s.gs[next].resume <- struct{}{}
+		}()
+		if s.killed {
+			panic(killSignal{})
+		}
+		s.cur = child.id
+		x.call(nil, instr.Pos(), fn, args)
+	}()
+	// scheduling point: the child may run before the parent continues
+	s.yield("go")
+}
+
+// chooseSafe is choose() for use in deferred exit code: an abort raised by choose is recorded.
+func (s *scheduler) chooseSafe(n int, tag string) (k int) {
+	defer func() {
+		if r := recover(); r != nil {
+			if s.abort == nil {
+				s.abort = r
+			}
+			k = -1
+		}
+	}()
+	return s.x.choose(n, tag)
+}
+
+// finish: at the end of the harness all goroutines must have terminated (leaks are reported).
+func (s *scheduler) finish(x *Exec) {
+	for _, g := range s.gs[1:] {
+		if !g.done {
+			s.killAll()
+			x.R.inconclusive(fmt.Sprintf("%s: goroutine %d still alive at the end of the harness (%s)", x.harness, g.id, g.what))
+			return
+		}
+	}
+}
+
+func (s *scheduler) killAll() {
+	s.killed = true
+	for _, g := range s.gs[1:] {
+		if !g.done {
+			select {
+			case g.resume <- struct{}{}:
+			default:
+			}
+		}
+	}
+}
+
+// ---- happens-before race detection ----
+
+func (s *scheduler) access(x *Exec, addr *value, m *mapVal, write bool) {
+	if !s.active {
+		return
+	}
+	var rec *accessRec
+	if addr != nil {
+		rec = s.cells[addr]
+		if rec == nil {
+			rec = &accessRec{wG: -1}
+			s.cells[addr] = rec
+		}
+	} else {
+		rec = s.maps[m]
+		if rec == nil {
+			rec = &accessRec{wG: -1}
+			s.maps[m] = rec
+		}
+	}
+	g := s.me()
+	ordered := func(og, oc int) bool { return og == g.id || oc <= vcGet(g.vc, og) }
+	if rec.wG >= 0 && !ordered(rec.wG, rec.wC) {
+		s.race(x, addr, m, rec.wG, true, write)
+	}
+	if write {
+		for rg, rc := range rec.reads {
+			if !ordered(rg, rc) {
+				s.race(x, addr, m, rg, false, true)
+			}
+		}
+		rec.wG, rec.wC = g.id, vcGet(g.vc, g.id)
+		rec.reads = nil
+	} else {
+		if rec.reads == nil {
+			rec.reads = map[int]int{}
+		}
+		rec.reads[g.id] = vcGet(g.vc, g.id)
+	}
+}
+
+func (s *scheduler) race(x *Exec, addr *value, m *mapVal, other int, otherWrite, write bool) {
+	kind := func(w bool) string {
+		if w {
+			return "write"
+		}
+		return "read"
+	}
+	what := "memory cell"
+	if m != nil {
+		what = "map"
+	}
+	msg := fmt.Sprintf("data race: %s by goroutine %d and %s by goroutine %d on a %s without happens-before order", kind(write), s.cur, kind(otherWrite), other, what)
+	for _, r := range s.races {
+		if r == msg {
+			return
+		}
+	}
+	s.races = append(s.races, msg)
+	x.raceMsgs = append(x.raceMsgs, msg)
+}
+
+var _ = token.NoPos
